@@ -15,7 +15,7 @@ TRUSTED = [
     "modelled, not verified: the resolver (PL->RQ), preprocess/postprocess, projection and expression generation are tied only by the end-to-end oracle; Theta-2 is proved over abstract rows/filters/sorts/aggregates, its link to the code is the split-table obligation, the segment validator and the oracle",
 ]
 
-KIND_OF_PQ = {"From": "KFrom", "Join": "KJoin", "Filter": "KFilter", "Aggregate": "KAggregate", "Sort": "KSort", "Take": "KTake", "Select": "KSelect",
+KIND_OF_PQ = {"From": "KFrom", "Join": "KJoin", "Filter": "KFilter", "Aggregate": "KAggregate", "Sort": "KSort", "Take": "KTake", "TakeSorted": "KTakeSorted", "Select": "KSelect",
               "Distinct": "KDistinct", "DistinctOn": "KDistinctOn", "Union": "KUnion", "Except": "KExcept", "Intersect": "KIntersect", "Loop": "KLoop",
               "Compute": "KCompute"}
 
@@ -139,6 +139,7 @@ def segments_stream(ck, recs):
             # the final PQ has its ORDER BY re-emitted by infer_sorts after takes/unions: the position of a
             # Sort (and of Select) carries no meaning there, which sort it is belongs to C03
             ks = [(k if isinstance(k, str) else list(k.keys())[0]) for k in p]
+            ks = ["TakeSorted" if (n == "Take" and isinstance(t, dict) and (t["Take"].get("sort") or [])) else n for n, t in zip(ks, p)]
             return [k for k in ks if k not in ("Sort", "Select")]
         for c in pq.get("ctes", []):
             k = c.get("kind", {})
@@ -173,7 +174,8 @@ def segments_stream(ck, recs):
         ck.stat("segments", "len:%d" % len(sg))
         if verdict.get(tuple(sg)) is not True:
             rec = seen[s]
-            fid = "F19-take-then-distinct" if ("Take" in sg and "Distinct" in sg and sg.index("Take") < sg.index("Distinct")) else None
+            tk = [i for i, k in enumerate(sg) if k in ("Take", "TakeSorted")]
+            fid = "F19-take-then-distinct" if (tk and "Distinct" in sg and tk[0] < sg.index("Distinct")) else None
             ck.disagreement("atomic SELECT is not clause-ordered: %s in %s [%s]" % (sg, s.replace("\n", " | ")[:200], tgt),
                             {"prql": s, "target": tgt, "segment": sg, "sql": rec.get("sql") if tgt == "sql.sqlite" else None}, lambda c, f=fid: f)
     ck.coverage["segments_distinct_shapes"] = len(uniq)
